@@ -13,7 +13,8 @@ src, k, prop = sys.argv[1], sys.argv[2], sys.argv[3]
 rest = sys.argv[4:]
 run_tests = "--no-tests" not in rest
 rest = [a for a in rest if a != "--no-tests"]
-dst = os.path.join(ROOT, "seeded", f"{prop}-{k}")
+rnd = os.environ.get("SEED_ROUND")
+dst = os.path.join(ROOT, "seeded", f"{prop}-{rnd}-{k}" if rnd else f"{prop}-{k}")
 os.makedirs(dst, exist_ok=True)
 for a, b in ((f"patch_{k}.diff", "patch.diff"), (f"demo_{k}.py", "demo.py"), (f"meta_{k}.json", "seeder_meta.json")):
     p = os.path.join(src, "SEEDED", a)
